@@ -59,6 +59,12 @@ concurrent elements of all step kinds), and for a package-level scratch cell
 that every constant's name passes through:
 `C08_shared_scratch_sequential_invisible` (no sequential history can see it),
 `C08_shared_scratch_interleaving_dependent` (an interleaving does).
+Operand widths (the property quantifies over all programs): a builder that
+reads a package-level table keyed by the width (Model/WidthTable.lean) -
+`C08_multiplier_table_perm_invariant` (the lookup by key of the code as it is),
+`C08_nearest_key_perm_invariant` / `C08_nearest_key_tie_order_dependent` (a
+lookup by the closest key is order independent iff all closest keys carry one
+value or ties are broken by a total order on the keys).
 NOT a theorem: that nothing
 outside the enumerated sites and the modelled state influences the bytes
 (directory listing order, pointer values, scheduler) — that part is the
@@ -86,6 +92,7 @@ import MpcVerif.Proofs.Determinism
 import MpcVerif.Proofs.ProcState
 import MpcVerif.Proofs.ProcSteps
 import MpcVerif.Proofs.ProcConc
+import MpcVerif.Proofs.WidthTable
 
 namespace Mpc
 open Mpc.Det
@@ -619,5 +626,98 @@ theorem C08_shared_scratch_interleaving_dependent :
       (concurrent microScratch sched (tasks.map nameTask) cell).1.map namesOf = [[2], [2]] ∧
       (concurrent microScratch [] (tasks.map nameTask) cell).1.map namesOf = tasks :=
   ⟨[0, 1, 0, 1], [[1], [2]], 0, by decide, by decide, by decide⟩
+
+open Mpc.WT
+
+/-! ### Width-indexed tables of the circuit builders (Model/WidthTable.lean)
+
+The property quantifies over ALL programs, hence over all operand widths.  A
+builder of compiler/circuits may choose its construction from a package-level
+table keyed by the width (today: `multiplierArrayTresholds`, read by
+`NewMultiplier` with `m[len(x)]`, default 21).  A Go map has no order: the
+table is a list of entries in the order the runtime hands them over, with one
+value per key.  The lookup BY KEY of the code as it is does not depend on that
+order, so neither does the recursion of the Karatsuba multiplier
+(`C08_multiplier_table_perm_invariant`; tie: op `mthr` - the limits for which
+`Params.CircMultArrayTreshold = L` gives the circuit of the default parameters
+= `multClass` of the table read from the source, at every swept width).  A
+lookup by the CLOSEST key written as a best-so-far loop over `range m` is order
+independent iff all closest keys carry one value, or ties are broken by a total
+order on the keys (`C08_nearest_key_perm_invariant`,
+`C08_nearest_key_tie_order_dependent`, witness `C08_nearest_key_tie_witness`:
+width 29 halfway between the tuned widths 21 and 37 - the limits 12 and 19 give
+different Karatsuba recursions, hence different gates).  The oracle of the
+width sweep (harness sweep.go) looks for such a dependence on the real
+compiler at every width 1..130, at powers of two and at the edges of and
+midpoints between the runs of keys of every integer-keyed table of the
+compile path. -/
+
+/-- The code as it is: `m[len(x)]` with a default.  The limit handed to NewKaratsubaMultiplier, the recursion it
+makes and what the harness observes of it (`multClass`) are the same for all hand-over orders of the table. -/
+theorem C08_multiplier_table_perm_invariant (l₁ l₂ : List (Nat × Nat)) (hp : l₁.Perm l₂) (hf : Functional l₁)
+    (gmw : Bool) (w lo cnt : Nat) :
+    multLimit l₁ w = multLimit l₂ w ∧ multShape l₁ w = multShape l₂ w ∧
+      multClass gmw l₁ w lo cnt = multClass gmw l₂ w lo cnt :=
+  ⟨multLimit_perm l₁ l₂ hp hf w, multShape_perm l₁ l₂ hp hf w, multClass_perm gmw l₁ l₂ hp hf w lo cnt⟩
+
+-- non-vacuity: a three-entry table in two orders; width 21 is a key (limit 12), width 29 is not (limit 21)
+example : Functional [(16, 9), (21, 12), (37, 19)] := by unfold Functional; decide
+example : multLimit [(16, 9), (21, 12), (37, 19)] 21 = 12 ∧ multLimit [(37, 19), (21, 12), (16, 9)] 21 = 12 ∧
+    multLimit [(37, 19), (21, 12), (16, 9)] 29 = 21 := by decide
+example : multClass false [(16, 9), (21, 12), (37, 19)] 29 8 23 = [16, 17, 18, 19, 20, 21, 22, 23, 24, 25, 26, 27, 28] := by
+  decide
+
+/-- One value per key is what makes the lookup by key order independent: with two entries of one key (impossible in a
+Go map) the first one handed over wins. -/
+theorem C08_lookup_needs_functional :
+    ∃ l₁ l₂ : List (Nat × Nat), l₁.Perm l₂ ∧ lookupD l₁ 1 21 ≠ lookupD l₂ 1 21 :=
+  ⟨[(1, 2), (1, 3)], [(1, 3), (1, 2)], List.Perm.swap _ _ _, by decide⟩
+
+/-- A lookup by the closest key (best-so-far loop over the entries in hand-over order, replacing on a strictly smaller
+distance) does not depend on the hand-over order when all closest keys carry ONE value - in particular when the closest
+key is unique -; with ties broken by the smaller key it never does (keys of a map are distinct); the same for "exact
+hit, otherwise the closest key". -/
+theorem C08_nearest_key_perm_invariant (l₁ l₂ : List (Nat × Nat)) (hp : l₁.Perm l₂) (bits d : Nat) :
+    ((∀ a ∈ l₁, ∀ b ∈ l₁, Closest l₁ bits a → Closest l₁ bits b → a.2 = b.2) →
+        nearest l₁ bits d = nearest l₂ bits d) ∧
+    (Functional l₁ → nearestTB l₁ bits d = nearestTB l₂ bits d) ∧
+    (Functional l₁ → (∀ a ∈ l₁, ∀ b ∈ l₁, Closest l₁ bits a → Closest l₁ bits b → a.2 = b.2) →
+        lookupNearest l₁ bits d = lookupNearest l₂ bits d) :=
+  ⟨nearest_perm_invariant l₁ l₂ hp bits d, nearestTB_perm_invariant l₁ l₂ hp bits d,
+   lookupNearest_perm_invariant l₁ l₂ hp bits d⟩
+
+-- non-vacuity: width 30 is closer to 37 than to 21 (unique closest key); width 29 is a tie, broken towards 21
+example : nearest [(21, 12), (37, 19)] 30 21 = 19 ∧ nearest [(37, 19), (21, 12)] 30 21 = 19 := by decide
+example : ∀ a ∈ [(21, 12), (37, 19)], ∀ b ∈ [(21, 12), (37, 19)],
+    Closest [(21, 12), (37, 19)] 30 a → Closest [(21, 12), (37, 19)] 30 b → a.2 = b.2 := by
+  intro a ha b hb ca cb
+  have h37 : ((37, 19) : Nat × Nat) ∈ [(21, 12), (37, 19)] := by decide
+  have da := ca _ h37
+  have db := cb _ h37
+  simp only [List.mem_cons, List.mem_nil_iff, or_false] at ha hb
+  rcases ha with rfl | rfl <;> rcases hb with rfl | rfl <;> first | rfl | (exfalso; revert da db; decide)
+example : nearestTB [(21, 12), (37, 19)] 29 21 = 12 ∧ nearestTB [(37, 19), (21, 12)] 29 21 = 12 := by decide
+
+/-- The hypothesis is needed ("iff"): whenever two closest keys carry different values there are two hand-over orders
+of the same table with different results - the entry handed over first wins. -/
+theorem C08_nearest_key_tie_order_dependent (l : List (Nat × Nat)) (bits d : Nat) (a b : Nat × Nat)
+    (ha : a ∈ l) (hb : b ∈ l) (ca : Closest l bits a) (cb : Closest l bits b) (hne : a.2 ≠ b.2) :
+    ∃ l₁ l₂ : List (Nat × Nat), l₁.Perm l ∧ l₂.Perm l ∧ nearest l₁ bits d ≠ nearest l₂ bits d :=
+  nearest_tie_order_dependent l bits d a b ha hb ca cb hne
+
+-- non-vacuity: the tuned widths 21 and 37 are equally close to 29
+example : ∃ l₁ l₂ : List (Nat × Nat), l₁.Perm [(21, 12), (37, 19)] ∧ l₂.Perm [(21, 12), (37, 19)] ∧
+    nearest l₁ 29 21 ≠ nearest l₂ 29 21 :=
+  C08_nearest_key_tie_order_dependent [(21, 12), (37, 19)] 29 21 (21, 12) (37, 19) (by decide) (by decide)
+    (by unfold Closest; decide) (by unfold Closest; decide) (by decide)
+
+/-- Witness: the tuned widths 21 (limit 12) and 37 (limit 19), operand width 29 exactly halfway.  The two hand-over
+orders give the limits 12 and 19, and these give different Karatsuba recursions for 29-bit operands (14-bit halves go
+to the array multiplier under 19 and are split again under 12): different gates and wire numbers. -/
+theorem C08_nearest_key_tie_witness :
+    [((21, 12) : Nat × Nat), (37, 19)].Perm [(37, 19), (21, 12)] ∧
+    nearest [(21, 12), (37, 19)] 29 21 = 12 ∧ nearest [(37, 19), (21, 12)] 29 21 = 19 ∧
+    kshape 12 29 29 29 ≠ kshape 19 29 29 29 :=
+  ⟨List.Perm.swap _ _ _, by decide, by decide, by decide⟩
 
 end Mpc
